@@ -173,7 +173,9 @@ func (u *unit) compatible(r int32, vt types.Type) bool {
 	return ok
 }
 
-// rootMayHold reports whether root r can contain memory of type key t.
+// rootMayHold reports whether root r can contain memory of type key t. For
+// parameter roots below MaxDepth the answer is exact in the access-path
+// length: only types found at that many loads from the declared type count.
 func (u *unit) rootMayHold(r int32, t string) bool {
 	rt := u.roots[r]
 	var decl types.Type
@@ -188,14 +190,135 @@ func (u *unit) rootMayHold(r int32, t string) bool {
 	if decl == nil {
 		return true
 	}
-	ck := compatKey{r, t}
+	ck := compatKey{r, "w:" + t}
 	if v, ok := u.compatC[ck]; ok {
 		return v
 	}
-	rs := u.a.reachOf(decl)
+	var rs *reachSet
+	if (rt.kind == RParam || rt.kind == RCParam) && rt.depth < MaxDepth {
+		rs = u.a.levelReach(decl, int(rt.depth))
+	} else {
+		rs = u.a.reachOf(decl)
+	}
 	ok := rs.all || rs.m[t]
 	u.compatC[ck] = ok
 	return ok
+}
+
+// levelReach: the types of memory exactly depth loads away from a value of
+// declared type decl (depth 0: what the value's references point to).
+func (a *Analysis) levelReach(decl types.Type, depth int) *reachSet {
+	k := typeKey(decl) + "@" + string(rune('0'+depth))
+	if r, ok := a.reachC[k]; ok {
+		return r
+	}
+	// frontier: reference types whose pointees form the next level
+	frontier := a.refTypesIn(decl, false)
+	var level *reachSet
+	for d := 0; d <= depth; d++ {
+		level = &reachSet{m: map[string]bool{}}
+		var next []types.Type
+		for _, rt := range frontier {
+			for _, pt := range a.pointeesOf(rt, level) {
+				a.inline(level, pt, &next)
+			}
+			if level.all {
+				break
+			}
+		}
+		if level.all {
+			break
+		}
+		frontier = next
+	}
+	a.reachC[k] = level
+	return level
+}
+
+// refTypesIn lists the reference types contained inline in a value of type t
+// (t itself when it is a reference type).
+func (a *Analysis) refTypesIn(t types.Type, _ bool) []types.Type {
+	var out []types.Type
+	var walk func(t types.Type, depth int)
+	walk = func(t types.Type, depth int) {
+		if depth > 6 {
+			return
+		}
+		switch u := types.Unalias(t).Underlying().(type) {
+		case *types.Pointer, *types.Slice, *types.Map, *types.Chan, *types.Interface, *types.Signature:
+			out = append(out, t)
+		case *types.Struct:
+			for i := 0; i < u.NumFields(); i++ {
+				walk(u.Field(i).Type(), depth+1)
+			}
+		case *types.Array:
+			walk(u.Elem(), depth+1)
+		case *types.TypeParam:
+			out = append(out, t)
+		}
+	}
+	walk(t, 0)
+	return out
+}
+
+// pointeesOf: the types of memory a reference of type rt can point to.
+func (a *Analysis) pointeesOf(rt types.Type, level *reachSet) []types.Type {
+	switch u := types.Unalias(rt).Underlying().(type) {
+	case *types.Pointer:
+		return []types.Type{u.Elem()}
+	case *types.Slice:
+		return []types.Type{u.Elem()}
+	case *types.Map:
+		level.m[typeKey(rt)] = true
+		return []types.Type{u.Key(), u.Elem()}
+	case *types.Chan:
+		level.m[typeKey(rt)] = true
+		return []types.Type{u.Elem()}
+	case *types.Interface:
+		if u.NumMethods() == 0 {
+			level.all = true
+			return nil
+		}
+		var out []types.Type
+		for _, it := range a.moduleImplementers(u) {
+			if p, ok := it.(*types.Pointer); ok {
+				out = append(out, p.Elem())
+			} else {
+				out = append(out, it)
+			}
+		}
+		return out
+	case *types.TypeParam:
+		level.all = true
+	}
+	return nil
+}
+
+// inline adds t and everything stored inline in it to the level, collecting
+// the reference types found (the next frontier).
+func (a *Analysis) inline(level *reachSet, t types.Type, next *[]types.Type) {
+	var walk func(t types.Type, depth int)
+	walk = func(t types.Type, depth int) {
+		if depth > 6 {
+			return
+		}
+		t = types.Unalias(t)
+		level.m[typeKey(t)] = true
+		if _, named := t.(*types.Named); named {
+			level.m[typeKey(t.Underlying())] = true
+		}
+		switch u := t.Underlying().(type) {
+		case *types.Pointer, *types.Slice, *types.Map, *types.Chan, *types.Interface, *types.Signature, *types.TypeParam:
+			*next = append(*next, t)
+		case *types.Struct:
+			for i := 0; i < u.NumFields(); i++ {
+				walk(u.Field(i).Type(), depth+1)
+			}
+		case *types.Array:
+			walk(u.Elem(), depth+1)
+		}
+	}
+	walk(t, 0)
 }
 
 type compatKey struct {
